@@ -854,6 +854,9 @@ func search(r *hx.Rng, n int, dist map[string]int) (evals int, distinct int, vs 
 	}()
 	for i := 0; i < n; i++ {
 		evals++
+		if i%16 == 0 {
+			setCfg(true, true, true) // back to the dev schedule (the ft case switches flags)
+		}
 		switch r.Intn(9) {
 		case 8: // stake / refund helpers: exact below 2^53 whole coins, and agreeing with each other
 			n := genU64(r, dist)
@@ -900,6 +903,8 @@ func search(r *hx.Rng, n int, dist map[string]int) (evals int, distinct int, vs 
 			if !inDomain(v) {
 				continue
 			}
+			// on both sides of the fork flags the balance paths read (Proposal 002: setData vs SetData)
+			setCfg(r.Bool(), r.Bool(), r.Bool())
 			op := "ft 18 s" + v.String() + " g a" + v.String() + " g u" + v.String() + " g"
 			seen[op] = true
 			twice := new(big.Int).Add(v, v).String()
